@@ -150,7 +150,10 @@ def rule_R2(ctx, f):
     cs = [c for c in b.calls_to("HashSet::contains") if peel(c.args[0]) == SELF_FIELD("desc_ids") and _desc_elem(b, c.args[1]) == "id"]
     ok = False
     if len(cs) == 1:
-        be = b.bool_edges(cs[0].target)
+        be = b.branch_on_call(cs[0])
+        if not (be and be[0] == cs[0].result_term()):
+            # the test may sit a few blocks later (the lookup wrapped in a small helper that was expanded here): the branch on this call's result
+            be = next((b.bool_edges(bi) for bi in sorted(b.reach(cs[0].bb)) if b.bool_edges(bi) and b.bool_edges(bi)[0] == cs[0].result_term()), None)
         if be and be[0] == cs[0].result_term():
             ok = rejecting(b, be[1]) and on_every_iteration(cs[0].bb)
             errs = [err_variant(b, x) for x in b.reach(be[1]) if err_variant(b, x)]
@@ -192,7 +195,7 @@ def rule_R2(ctx, f):
             for c in b.calls_to(["Option::is_some_and", "Option::map_or", "Option::is_none_or"]):
                 a = c.args[-1]
                 cl = f.closure(a[2]) if (isinstance(a, tuple) and a and a[0] == "agg" and a[1] == "closure") else None
-                be = b.bool_edges(c.target) if c.target is not None else None
+                be = b.branch_on_call(c)
                 if cl is None or not be or be[0] != c.result_term() or not from_lookup_deep(c.args[0]):
                     continue
                 r = cl.term_local(0)
@@ -267,7 +270,7 @@ def rule_R2(ctx, f):
     ins = [c for c in b.calls_to("HashSet::insert") if self_field_of(c.args[0]) is None and _desc_elem(b, c.args[1]) == "id"]
     okc = False
     if len(ins) == 1:
-        be = b.bool_edges(ins[0].target)
+        be = b.branch_on_call(ins[0])
         if be and be[0] == ins[0].result_term():
             okc = rejecting(b, be[2]) and on_every_iteration(ins[0].bb)
             # collector id: wrapping_add(acc, desc.id) on the true edge only, key of entry() is acc
@@ -292,7 +295,7 @@ def rule_R2(ctx, f):
         cont = [c for c in u.calls_to(["slice::contains", "Vec::contains", "HashSet::contains", "HashSet::insert"]) if _desc_elem(u, c.args[1]) == "id"]
         ok = len(was) == 1 and len(cont) == 1
         if ok:
-            be = u.bool_edges(cont[0].target)
+            be = u.branch_on_call(cont[0])
             # bb of `!contains` : a unop Not may sit in between
             guard_ok = False
             for bi in u.reach(cont[0].bb):
@@ -396,7 +399,7 @@ def rule_R3(ctx, f):
                     vac = t
     elif len(cks) == 1 and not ents:
         # `if collectors_by_id.contains_key(&id) { return Err(AlreadyReg) }` ... insert(id, c)
-        be = b.bool_edges(cks[0].target) if cks[0].target is not None else None
+        be = b.branch_on_call(cks[0])
         if be and be[0] == cks[0].result_term():
             occ, vac = be[1], be[2]
         ents = cks
